@@ -341,6 +341,36 @@ def run(ctx):
     de = repo.func(f"{SER}:deserialize_expr")
     okl = any(isinstance(c, ast.Call) and (dotted(c.func) or "").endswith("sympify") and kwarg(c, "locals") is not None and "call:_make_symbols_map" in Defs(de.node).atoms(kwarg(c, "locals")) for c in body_walk(de.node))
     ctx.check(okl, R5, de.key, "sympify(expr, locals=<symbol table>)", "expressions are parsed without the record's symbol table as locals: symbol names that shadow sympy names are mis-parsed", de)
+    # the stored text of a parameter may be a bare symbol name: Python's own float()/complex() accept the *identifiers*
+    # "inf", "nan", "infinity", "j" (and sign/case variants), so parsing the text with them before the symbol table had
+    # its say turns the symbols j / J / inf / nan into numbers
+    early = []
+
+    def scan(fi, pname, depth):
+        dd = Defs(fi.node)
+        for c in body_walk(fi.node):
+            if not isinstance(c, ast.Call) or not c.args:
+                continue
+            fn_names = set()
+            if isinstance(c.func, ast.Name):
+                fn_names.add(c.func.id)
+                for loop in body_walk(fi.node):
+                    if isinstance(loop, ast.For) and isinstance(loop.target, ast.Name) and loop.target.id == c.func.id and isinstance(loop.iter, (ast.Tuple, ast.List)):
+                        fn_names |= {e.id for e in loop.iter.elts if isinstance(e, ast.Name)}
+            takes = [i for i, a in enumerate(c.args) if norm(a) == pname or pname in dd.atoms(a)]
+            if fn_names & {"float", "complex"} and 0 in takes:
+                early.append((fi, c))
+            elif takes and depth < 2 and isinstance(c.func, ast.Name) and c.func.id in fi.module.functions and c.func.id not in ("_make_symbols_map",):
+                callee = fi.module.functions[c.func.id]
+                cps = positional_params(callee.node)
+                for i in takes:
+                    if i < len(cps):
+                        scan(callee, cps[i], depth + 1)
+
+    scan(de, positional_params(de.node)[0], 0)
+    early_fi = early[0][0] if early else de
+    early = [c for _, c in early]
+    ctx.check(not early, R5, de.key + ":symbol-names-first", "the stored text is interpreted with the record's symbol table, not by float()/complex()", f"`{short(early[0]) if early else ''}` parses the stored text with Python's float/complex: these accept the identifiers inf, nan, infinity and j, so a bare symbol of that name (e.g. RY(Symbol('j'))) is deserialised as a number", f"{early_fi.module.relpath}:{early[0].lineno}" if early else de)
     se = repo.func(f"{SER}:serialize_expr")
     rs = returned_exprs(se.node)
     ctx.check(len(rs) == 1 and norm(rs[0]) == f"str({positional_params(se.node)[0]})", R5, se.key, "expressions stored as str(expr)", "expressions are no longer stored as str(expr)", se)
